@@ -25,7 +25,8 @@ RULE = ("The product declaration-route x domain x method x strict is enumerated 
         "a second solve of the same problem; strict=False emits exactly one relaxation warning whose bracketed "
         "list equals that set and returns what a fresh copy with continuous domains (binary -> [0,1]) returns; "
         "every binary element reachable through the view has bounds (0,1).  Non-trivial = discrete variables "
-        "reached through a view or a non-default method.")
+        "reached through a view or a non-default method."
+        "  Also: fractional declared bounds, and models written entirely over one vector-shaped view object of the discrete container (optyx's single-vector shortcut).")
 BUDGET = {"quick": {"workers": 16, "per_cell": 1}, "thorough": {"workers": 16, "per_cell": 8}}
 ASSUMPTIONS = ["LP-only methods on a nonlinear model refuse the model before/independently of the domain check: such cells are discards"]
 MANIFEST = {
